@@ -112,7 +112,23 @@ def check(run, model, tier):
         if lock_ok:
             for t in inner_tests:
                 if isinstance(t, ast.If):
-                    inner, pol = strip_not(t.test)
+                    ttest = t.test
+                    # a local computed *inside* the critical section from the shared slot stands for that read (`already_built = self.instance is not None`)
+                    for _ in range(3):
+                        i0, p0 = strip_not(ttest)
+                        if isinstance(i0, ast.Name):
+                            asg = [x for x in ast.walk(w) if isinstance(x, ast.Assign) and any(isinstance(tt, ast.Name) and tt.id == i0.id for tt in x.targets)]
+                            alldefs = [x for x in walk_shallow(call.node) if isinstance(x, ast.Assign) and any(isinstance(tt, ast.Name) and tt.id == i0.id for tt in x.targets)]
+                            if len(asg) == 1 and len(alldefs) == 1:
+                                ttest = asg[0].value if p0 else ast.UnaryOp(op=ast.Not(), operand=asg[0].value)
+                                continue
+                        break
+                    inner, pol = strip_not(ttest)
+                    cp_ = compare_parts(inner)
+                    if cp_ and cp_[1] in (ast.IsNot, ast.NotEq) and is_none(cp_[2]):
+                        # `not (slot is not None)` == `slot is None`
+                        inner = ast.Compare(left=cp_[0], ops=[ast.Is()], comparators=[cp_[2]])
+                        pol = not pol
                     cp = compare_parts(inner)
                     if cp and dotted(cp[0]) == '%s.%s' % (selfn, slot) and is_none(cp[2]) and cp[1] in (ast.Is, ast.Eq) and pol \
                             and any(x is a for s in t.body for x in ast.walk(s)):
